@@ -1569,8 +1569,19 @@ def write_fault_stage(res, ctx, ntab, lim, be=False):
     lines = []
     info = {}
     made = 0
+    # tables whose LAST write of a call is the length prefix of an empty string/binary element
+    # (nothing non-empty follows inside that call that could still report the refusal)
+    e10 = ref.Obj(10, [b"ab", b"", b""])
+    e12 = ref.Obj(12, [b"\1", b"", b""])
+    one = ref.Obj(2, [b"\1\0\0\0", b"\2\0\0\0", b"\3\0\0\0"])
+    special = [
+        ref.Table([(b"t", ref.Obj(10, [b""]), None)], [[(b"Name", ref.Obj(10, [b"c0"]), None), (b"z", ref.Obj(10, [b""]), None)]], []),
+        ref.Table([], [[(b"Name", ref.Obj(10, [b"c0"]), None)]], [[((1, one), [(b"ErrorCode", (1, e10))])]]),
+        ref.Table([], [[(b"Name", ref.Obj(10, [b"c0"]), None)]], [[((1, one), [(b"ErrorCode", (2, e12))])]]),
+        ref.Table([], [[(b"Name", ref.Obj(10, [b"c0"]), None)]], [[((1, e10), [])], [((2, e12), [])]]),
+    ]
     while made < ntab:
-        t = gen.rtable(r, consistent=True, small=True)
+        t = special.pop() if special else gen.rtable(r, consistent=True, small=True)
         full = bytes(t.canon().encode(be).b)
         if len(full) > lim:
             continue
